@@ -532,14 +532,14 @@ class ExtraFilesMachine(ManifestMachine):
         return productmd.extra_files.ExtraFiles()
 
     def call_add(self, obj, op):
-        obj.add(op["variant"], op["arch"], op["path"], op["size"], copy.deepcopy(op["checksums"]))
+        obj.add(op["variant"], op["arch"], op["path"], dec(op["size"]), copy.deepcopy(op["checksums"]))
 
     def add_key(self, op, payload):
         return [len(op["checksums"]) if isinstance(op["checksums"], dict) else -1, len(payload), op["variant"] in payload,
                 len(payload.get(op["variant"], {}).get(op["arch"], []))]
 
     def expect_add(self, payload, op):
-        variant, arch, path, size, checksums = op["variant"], op["arch"], op["path"], op["size"], op["checksums"]
+        variant, arch, path, size, checksums = op["variant"], op["arch"], op["path"], dec(op["size"]), op["checksums"]
         if not isinstance(variant, str):
             return UNSPEC, "variant:type"
         if variant == "":
